@@ -129,3 +129,29 @@ lemma("cyc_ge_min", {"d": "arr2", "x": "arr1", "n": "int", "k": "int"}, ["n >= 2
 lemma("tour_within_instance_bounds", {"d": "arr2", "x": "arr1", "n": "int"}, ["n >= 2", "perm(x, n)"],
       "srmin(d, n, n) <= cyc(d, x, n, n) and cyc(d, x, n, n) <= srmax(d, n, n)",
       uses=["cyc_le_max(d, x, n, n)", "cyc_ge_min(d, x, n, n)", "perm_sum_rmax(d, x, n)"])
+
+
+# ---- the storage type of tsp.Instance (C05 "whatever integer type the instance chose", C06/C13 pre-condition D_lo < 0):
+# block `limit = ...; obj = super().__new__(cls, use_shape, int_range_to_dtype(-limit, limit))`
+from pyvc.spec import DTYPE, OBJ  # noqa: E402
+
+_cir_t = contract("<opaque>:check_int_range", params={"v": PYINT, "name": OBJ, "lo": PYINT}, returns=PYINT,
+                  ensures=["result == v and lo <= v"],
+                  assumptions=["pycommons.check_int_range(v, name, lo) returns v if v >= lo (raises otherwise)"])
+_irtd_t = contract("<opaque>:int_range_to_dtype", params={"min_value": PYINT, "max_value": PYINT}, returns=DTYPE,
+                   ensures=["result[0] <= min_value and result[1] >= max_value and (result[0] < 0 or min_value >= 0)"],
+                   assumptions=["E1: moptipy int_range_to_dtype(min_value, max_value) returns an integer dtype containing the "
+                                "range (a signed one when min_value < 0)"])
+contract(
+    TI + ":Instance.__new__#dtype",
+    props="C05 C06 C13",
+    block=("assign limit #0", "assign obj #0"),
+    params={"upper_bound_range_multiplier": PYINT, "upper_bound": PYINT, "n_cities": PYINT, "cls": OBJ},
+    attrs={"use_shape": "(n_cities, n_cities)"},
+    i64=False,
+    requires=["n_cities >= 2 and upper_bound >= 1"],
+    opaque={"check_int_range": _cir_t, "int_range_to_dtype": _irtd_t},
+    ensures=[tag("C05 C06 C13", "signed-type-holding-every-tour-length",
+                 "dtype_lo(obj) < 0 and dtype_hi(obj) >= upper_bound and dtype_hi(obj) >= n_cities"
+                 " and shape(obj, 0) == n_cities and shape(obj, 1) == n_cities")],
+)
